@@ -449,7 +449,7 @@ def many_cases(tier, seed):
                 for pl, v in zip(places, vals):
                     dims[pl] = v
                 for sys_ in ([7, places[1]], [places[0]], [places[2], places[0]], [places[1], 4, 9], list(range(1, n, 2))):
-                    yield {"dims": dims, "sys": sys_}
+                    yield {"dims": dims, "sys": list(dict.fromkeys(sys_))}  # no repeated subsystem
     for n in (8, 9, 10) + ((11,) if tier == "thorough" else ()):
         for sys_ in MANY_SYS[n]:
             yield {"n": n, "sys": sys_}
